@@ -1,10 +1,10 @@
 /-
-Driver for C06: replays a scripted async module through `Exec.runEvents` (the model of the repaired
+Driver for C06: replays a scripted async module through `Exec.runSim` (the model of the repaired
 `Harness::exec` the theorems of Props/C06.lean are about, with `Exec.tokioParams`) and through the specification
-executor `Exec.idealEvents` (budgets that never bind), and compares both with what the real des simulation logged.
+executor `Exec.idealSim` (budgets that never bind), and compares both with what the real des simulation logged.
 
   reject  : some task observed a simulated time different from the instant its awaited condition became true
-            (or never ran).  When the implementation's log is the one of the single-pass model `Exec.runEvents1`
+            (or never ran).  When the implementation's log is the one of the single-pass model `Exec.runSim` with `single := true`
             (the code before the repairs), `tag=` names the mechanism that left the task behind:
               F4  runtime queue budget (event_interval)      F4b LocalSet tick budget (MAX_TASKS_PER_TICK)
               F4c deferred waker (yield_now / coop budget)    F4d local task woken by a runtime task after the tick
@@ -18,7 +18,7 @@ namespace Driver.C06
 open Exec Driver
 
 /-- instruction on tags (as in the script) -/
-inductive TIns | s (t : Nat) | w (k : Nat) | a (k : Nat) | y | j (t : Nat)
+inductive TIns | s (t : Nat) | w (k : Nat) | a (k : Nat) | y | j (t : Nat) | z (d : Nat) | u (t : Nat)
   deriving DecidableEq
 
 def parseIns (tok : String) : Option (TIns × Nat) :=
@@ -33,7 +33,8 @@ def parseIns (tok : String) : Option (TIns × Nat) :=
     | none => none
     | some n =>
       if c = 's' then some (.s n, rep) else if c = 'w' then some (.w n, rep)
-      else if c = 'a' then some (.a n, rep) else if c = 'j' then some (.j n, rep) else none
+      else if c = 'a' then some (.a n, rep) else if c = 'j' then some (.j n, rep)
+      else if c = 'z' then some (.z n, rep) else if c = 'u' then some (.u n, rep) else none
   | [] => none
 
 def parseProg (toks : List String) : List TIns :=
@@ -43,7 +44,7 @@ def parseProg (toks : List String) : List TIns :=
 
 structure Script where
   tasks : Array (Nat × Kind × List TIns) := #[]
-  events : Array (Nat × List TIns) := #[]
+  events : Array (Nat × Bool × List TIns) := #[]
   run : Option String := none   -- the implementation's answer
 
 def parseScript (body : List String) : Script := Id.run do
@@ -56,7 +57,10 @@ def parseScript (body : List String) : Script := Id.run do
         sc := { sc with tasks := sc.tasks.push (t, if kind = "loc" then .loc else .rt, parseProg prog) }
     | "ev" :: tm :: prog =>
       if let some t := tm.toNat? then
-        sc := { sc with events := sc.events.push (t, parseProg prog) }
+        sc := { sc with events := sc.events.push (t, false, parseProg prog) }
+    | "cev" :: tm :: prog =>
+      if let some t := tm.toNat? then
+        sc := { sc with events := sc.events.push (t, true, parseProg prog) }
     | ["run"] => sc := { sc with run := some rhs }
     | _ => pure ()
   return sc
@@ -73,14 +77,17 @@ primitives, see the header of harness/src/c06.rs; scripts outside are skipped -/
 def wellFormed (sc : Script) : Bool := Id.run do
   let tags := sc.tasks.toList.map (·.1)
   let tprogs := sc.tasks.toList.map (·.2.2)
-  let eprogs := sc.events.toList.map (·.2)
+  let eprogs := sc.events.toList.map (·.2.2)
+  let cprogs := (sc.events.toList.filter (·.2.1)).map (·.2.2)
   let all := tprogs ++ eprogs
   -- unique tags
   if tags.eraseDups.length != tags.length then return false
   -- events strictly increasing in time, handlers only spawn / wake
-  let times := sc.events.toList.map (·.1)
+  let times := 0 :: sc.events.toList.map (·.1)
   if !(times.zip (times.drop 1)).all (fun (a, b) => a < b) then return false
   if count (fun i => match i with | .s _ | .w _ => false | _ => true) eprogs != 0 then return false
+  -- a consuming element only wakes (it runs outside the executor: spawning there panics)
+  if count (fun i => match i with | .w _ => false | _ => true) cprogs != 0 then return false
   for (_, kind, prog) in sc.tasks.toList do
     for i in prog do
       match i with
@@ -106,17 +113,17 @@ def wellFormed (sc : Script) : Bool := Id.run do
         if count (· == .j t) all != 1 then return false
         match pr.idxOf (.s t), pr.idxOf (.j t) with
         | is, ij => if !(is < ij && ij < pr.length) then return false
-      | .y => pure ()
+      | .y | .z _ | .u _ => pure ()
   return true
 
 structure Compiled where
   tags : List Nat
   s0 : St
-  events : List (Nat × List Instr)
+  events : List Ev
 
 def compile (sc : Script) : Compiled :=
   let tags := sc.tasks.toList.map (·.1)
-  let progs := sc.tasks.toList.map (·.2.2) ++ sc.events.toList.map (·.2)
+  let progs := sc.tasks.toList.map (·.2.2) ++ sc.events.toList.map (·.2.2)
   let cks : List Nat := (progs.foldl (fun acc pr => pr.foldl (fun acc i => match i with
     | .w k | .a k => if acc.contains k then acc else acc ++ [k]
     | _ => acc) acc) [])
@@ -126,11 +133,13 @@ def compile (sc : Script) : Compiled :=
     | .w k => match indexOf? cks k with | some x => [.wake x] | none => []
     | .a k => match indexOf? cks k with | some x => [.wait x] | none => []
     | .y => [.yield]
+    | .z d => [.sleep d]
+    | .u t => [.sleepUntil t]
   let trp (p : List TIns) : List Instr := p.foldr (fun i acc => tr i ++ acc) []
   { tags
     s0 := { tasks := sc.tasks.toList.map (fun (_, k, p) => { kind := k, prog := trp p })
             conds := cks.map (fun k => { coop := k % 3 != 2 }) }
-    events := sc.events.toList.map (fun (t, p) => (t, trp p)) }
+    events := sc.events.toList.map (fun (t, c, p) => { time := t, consumed := c, prog := trp p }) }
 
 /-- `log=1000:1,2;5000:3` -/
 def parseLog (s : String) : Option (List (Nat × Nat)) :=
@@ -176,16 +185,18 @@ def runCase (c : Case) : String := Id.run do
   | some ans =>
   let r := words ans
   let P := tokioParams
-  match kvNat r "L", kvNat r "E", kvNat r "C", kv r "res", (kv r "log").bind parseLog with
-  | some l, some e, some cc, some res, some impl =>
+  match kvNat r "L", kvNat r "E", kvNat r "C", kvNat r "G", kv r "res", (kv r "log").bind parseLog with
+  | some l, some e, some cc, some g, some res, some impl =>
     let cp := compile sc
     let tagAt (i : Nat) : Nat := (cp.tags[i]?).getD 0
-    let big := measure cp.s0 + 2 * cp.s0.tasks.length + 8
-    let fin := runEvents P cp.events cp.s0
+    let big := measure cp.s0 + 2 * cp.s0.tasks.length + cp.events.length + 8
+    -- `at_sim_start` is an `exec` of its own at t = 0 (it ticks the scheduler once)
+    let evs : List Ev := { time := 0 } :: cp.events
+    let fin := runSim P false big evs [] none cp.s0
     let mlogE := fin.log.reverse
     let mlog := mlogE.map fun x => (x.time, tagAt x.idx)
-    let ideal := idealEvents big cp.events cp.s0
-    if !(ideal.rq.isEmpty && ideal.lq.isEmpty && ideal.dq.isEmpty) then
+    let ideal := idealSim big evs cp.s0
+    if !(ideal.rq.isEmpty && ideal.iq.isEmpty && ideal.lq.isEmpty && ideal.dq.isEmpty && ideal.timers.isEmpty) then
       return s!"fail {id} op={op} kind=internal what=ideal-fuel"
     let ilog := ideal.log.reverse.map fun x => (x.time, tagAt x.idx)
     let specOK := res == "ok" && perTask cp.tags impl == perTask cp.tags ilog
@@ -193,11 +204,11 @@ def runCase (c : Case) : String := Id.run do
     if !specOK then
       -- does the implementation behave like the single-pass `exec` (the code before the repairs)?  then attribute
       -- the first late / never-run task of that run to its mechanism
-      let fin := runEvents1 P cp.events cp.s0
+      let fin := runSim P true big evs [] none cp.s0
       let mlogE := fin.log.reverse
       let modelEq := impl == mlogE.map fun x => (x.time, tagAt x.idx)
       let late := mlogE.find? (fun x => x.time != x.ready)
-      let left : Option Entry := (fin.lq ++ fin.rq).head?
+      let left : Option Entry := (fin.lq ++ fin.rq ++ fin.iq).head?
       let kindOf (i : Nat) : Kind := ((cp.s0.tasks[i]?).map (·.kind)).getD .rt
       let (tg, who, rdy, obs) : String × Nat × Nat × String := match late, left with
         | some x, _ => (tagOf (kindOf x.idx) x.origin, tagAt x.idx, x.ready, toString x.time)
@@ -209,8 +220,8 @@ def runCase (c : Case) : String := Id.run do
         let d := firstDiff impl mlog
         return s!"fail {id} op={op} kind=reject tag=unexplained res={res} at={d} model=[{showLog (mlog.drop d)}] impl=[{showLog (impl.drop d)}] spec=[{showLog (ilog.drop (firstDiff impl ilog))}]"
     -- the measured budgets (probes: 2000 ready tasks, 1000 available messages) must be the model's
-    if l != min P.L 2000 || e != min P.E 2000 || cc != min P.C 1000 then
-      return s!"fail {id} op={op} kind=diverge what=budget model=L{min P.L 2000},E{min P.E 2000},C{min P.C 1000} impl=L{l},E{e},C{cc}"
+    if l != min P.L 2000 || e != min P.E 2000 || cc != min P.C 1000 || g != P.G then
+      return s!"fail {id} op={op} kind=diverge what=budget model=L{min P.L 2000},E{min P.E 2000},C{min P.C 1000},G{P.G} impl=L{l},E{e},C{cc},G{g}"
     if !modelEq then
       let d := firstDiff impl mlog
       return s!"fail {id} op={op} kind=diverge at={d} model=[{showLog (mlog.drop d)}] impl=[{showLog (impl.drop d)}]"
@@ -218,10 +229,12 @@ def runCase (c : Case) : String := Id.run do
     let obs := mlog.length
     let ran := (cp.tags.filter fun g => mlog.any (·.2 == g)).length
     let links := (mlogE.filter fun x => x.origin == .tick || x.origin == .rtloop).length
+    let timed := (mlogE.filter fun x => x.origin == .timer).length
+    let handed := (mlogE.filter fun x => x.origin == .outside).length
     let burst := (mlog.map (·.1)).eraseDups.foldl (fun m t => max m (mlog.filter (·.1 == t)).length) 0
-    let nt := ran ≥ 2 && links ≥ 1
-    return s!"ok {id} nt={if nt then 1 else 0} obs={obs} tasks={ran} links={links} burst={burst} over61={if burst > 61 then 1 else 0}"
-  | _, _, _, _, _ => return s!"fail {id} op={op} kind=badline detail={ans}"
+    let nt := ran ≥ 2 && links + timed + handed ≥ 1
+    return s!"ok {id} nt={if nt then 1 else 0} obs={obs} tasks={ran} links={links} timerwoken={timed} handedover={handed} burst={burst} over61={if burst > 61 then 1 else 0}"
+  | _, _, _, _, _, _ => return s!"fail {id} op={op} kind=badline detail={ans}"
 
 def main (stdin : IO.FS.Stream) : IO Unit := do
   let cases ← readCases stdin
